@@ -308,8 +308,8 @@ theorem insertSuffix_cases (valid : DM → Bool) (n : Node) (head : DM) (more : 
       target.id = head.prevId ∧ ¬ (sub64 n.frontier.height target.height > Gen.InsertChainWindow) ∧
       ¬ (((head :: more).getLastD head).height ≤ n.frontier.height) ∧
       insertSuffix valid n (head :: more) start = applyLoop valid (n.rollbackTo target.height) (head :: more) start) ∨
-    (∃ o, insertSuffix valid n (head :: more) start = (n, 0, o) ∧ o ≠ .ok ∧ o ≠ .errVerify ∧
-      (o = .panic → n.byHeight (pred64 head.height) = none)) := by
+    (∃ o, insertSuffix valid n (head :: more) start = (n, 0, o) ∧ o ≠ .ok ∧ o ≠ .errVerify ∧ o ≠ .panic ∧
+      (n.byHeight (pred64 head.height) = none → o = .errLink)) := by
   generalize hr : insertSuffix valid n (head :: more) start = r
   unfold insertSuffix at hr
   simp only at hr
@@ -318,19 +318,19 @@ theorem insertSuffix_cases (valid : DM → Bool) (n : Node) (head : DM) (more : 
     split at hr
     · next hb =>
       subst hr
-      exact Or.inr (Or.inr ⟨.panic, rfl, by simp, by simp, fun _ => hb⟩)
+      exact Or.inr (Or.inr ⟨.errLink, rfl, by simp, by simp, by simp, fun _ => rfl⟩)
     · next target hb =>
       split at hr
       · subst hr
-        exact Or.inr (Or.inr ⟨.errLink, rfl, by simp, by simp, by simp⟩)
+        exact Or.inr (Or.inr ⟨.errLink, rfl, by simp, by simp, by simp, fun _ => rfl⟩)
       · next hid =>
         split at hr
         · subst hr
-          exact Or.inr (Or.inr ⟨.errTooFar, rfl, by simp, by simp, by simp⟩)
+          exact Or.inr (Or.inr ⟨.errTooFar, rfl, by simp, by simp, by simp, fun h => by rw [h] at hb; cases hb⟩)
         · next hfar =>
           split at hr
           · subst hr
-            exact Or.inr (Or.inr ⟨.errNotLonger, rfl, by simp, by simp, by simp⟩)
+            exact Or.inr (Or.inr ⟨.errNotLonger, rfl, by simp, by simp, by simp, fun h => by rw [h] at hb; cases hb⟩)
           · next hlong =>
             exact Or.inr (Or.inl ⟨target, hl, hb, by simpa using hid, hfar, hlong, hr.symm⟩)
   · next hl =>
